@@ -17,10 +17,21 @@
    * the incremental bookkeeping of `setToLeaf` / `remvoeFromLeaf` (count ±1, hash += Δvhash·lo16(khash>>32) in
      uint16 arithmetic) keeps the leaf summary equal to the sum over its live items, after ANY sequence of
      set / remove on the leaf (`C08_leaf_summary`).
-  Partial: the byte-level leaf (truncated hashes, C-accelerated search) and the lazy invalidation of inner nodes
-  are validated by the correspondence, not proved.
+   * IMPLEMENTATION-LEVEL TREE (GoBeans/Model/HTreeImpl.lean — store/htree.go: the `levels` array with
+     `Node{count,hash,isHashUpdated}`, the walk of set/remove/movePos that clears the flag of the ancestors, the lazy
+     `updateNodes` recomputation from the 16 children, `ListDir`; tied to the real HTree by engine `htree`: every call,
+     the reply and EVERY node of every level after every call): for every sequence of set / remove / movePos / Update /
+     ListDir — so for every pattern of stale flags — no call panics and every reply equals the content-level
+     specification of the content at that moment (`C08_lazy_never_stale`); what a reader obtains for any node at any
+     level equals `nodeSum` of the current content (`C08_every_node_exact`); a node found flagged is already exact
+     (`C08_flagged_node_is_exact`); after any history the summaries are those of the dictionary the history built
+     (`C08_history_to_summary`, `C08_run_output_exact`).
+     `C08_root_count_unrefreshed` states what `stats curr_items` reads (the root count WITHOUT an update: the live count
+     at the last root refresh — an observation, not part of C08).
+  Partial: the byte-level leaf (truncated hashes, C-accelerated search) is validated by the correspondence, not proved.
 -/
 import GoBeans.Lemmas.Tree
+import GoBeans.Lemmas.HTreeImpl
 open Tree TreeLemmas
 
 theorem C08_leaf_summary (ops : List LeafOp) :
@@ -42,6 +53,58 @@ theorem C08_history_independent {a b : Content} (h : a.Perm b) (below n p : Nat)
 theorem C08_tombstones_invisible (c : Content) (t : Ent) (ht : ¬ t.ver > 0) : leafSum (t :: c) = leafSum c := by
   rw [leafSum_eq, leafSum_eq]
   simp [liveCount, hashSum, List.filter_cons, ht]
+
+/-! the implementation-level tree with lazy inner nodes -/
+section Impl
+open HTreeImpl HTreeImplLemmas
+
+/-- any sequence of calls, any stale pattern: the next call does not panic and its reply (the summary `Update` returns,
+    every listing) is the specification of the content at that moment -/
+theorem C08_lazy_never_stale (depth bid height : Nat) (t0 t : HTree) (h0 : newHTree depth bid height = some t0)
+    (hh : 2 ≤ height) (hr : Reach t0 t) (op : Op) (ok : OpOk t op) :
+    ∃ t' out, step t op = some (t', out) ∧ out = specOut t0 (content t) op ∧ Reach t0 t' ∧
+      (isReader op = true → content t' = content t) :=
+  HTreeImplLemmas.C08_lazy_never_stale depth bid height t0 t h0 hh hr op ok
+
+/-- what a reader obtains for ANY node at ANY level is `nodeSum` of the current content -/
+theorem C08_every_node_exact (depth bid height : Nat) (t0 t : HTree) (h0 : newHTree depth bid height = some t0)
+    (hh : 2 ≤ height) (hr : Reach t0 t) (level offset : Nat) (hl : level < height) (ho : offset < 16 ^ level) :
+    ((updateAt t level offset).2.count, (updateAt t level offset).2.hash)
+      = nodeSum (content t) (depth + level) (bid * 16 ^ level + offset) (height - 1 - level) ∧
+    (updateAt t level offset).2 = (updateAt t level offset).1.node level offset ∧
+    content (updateAt t level offset).1 = content t :=
+  HTreeImplLemmas.C08_every_node depth bid height t0 t h0 hh hr level offset hl ho
+
+/-- a node found flagged up to date is exact as it stands -/
+theorem C08_flagged_node_is_exact (depth bid height : Nat) (t0 t : HTree) (h0 : newHTree depth bid height = some t0)
+    (hh : 2 ≤ height) (hr : Reach t0 t) (level offset : Nat) (hl : level < height) (ho : offset < 16 ^ level)
+    (hf : (t.node level offset).upd = true) :
+    ((t.node level offset).count, (t.node level offset).hash)
+      = nodeSum (content t) (depth + level) (bid * 16 ^ level + offset) (height - 1 - level) :=
+  HTreeImplLemmas.C08_flagged_is_exact depth bid height t0 t h0 hh hr level offset hl ho hf
+
+/-- the output of the call at ANY position of ANY sequence is the specification of the content at that moment -/
+theorem C08_run_output_exact (t : HTree) (pre post : List Op) (op : Op) (inv : Inv t) (ok : OpsOk t (pre ++ op :: post)) :
+    ∃ t1 o1 t2 o2 out, run t pre = some (t1, o1) ∧ run t (pre ++ op :: post) = some (t2, o1 ++ out :: o2) ∧
+      out = specOut t (content t1) op :=
+  HTreeImplLemmas.run_output_exact t pre post op inv ok
+
+/-- after ANY admissible history from an empty tree, every node summary is `nodeSum` of the dictionary the history
+    builds (set = upsert, remove = delete): the listing is a function of content alone -/
+theorem C08_history_to_summary (depth bid height : Nat) (t0 t : HTree) (ops : List Op) (outs : List Out)
+    (h0 : newHTree depth bid height = some t0) (hh : 2 ≤ height) (ok : ∀ op ∈ ops, OpOk' t0 op)
+    (hr : run t0 ops = some (t, outs)) (level offset : Nat) (hl : level < height) (ho : offset < 16 ^ level) :
+    ((updateAt t level offset).2.count, (updateAt t level offset).2.hash)
+      = nodeSum (absRun [] ops) (depth + level) (bid * 16 ^ level + offset) (height - 1 - level) :=
+  HTreeImplLemmas.C08_history_to_summary depth bid height t0 t ops outs h0 hh ok hr level offset hl ho
+
+/-- what `stats curr_items` reads — the root count WITHOUT an update — is the live count at the last root refresh
+    (an observation about the code, not part of C08) -/
+theorem C08_root_count_unrefreshed (t t' : HTree) (ops : List Op) (outs : List Out) (inv : Inv t) (ok : OpsOk t ops)
+    (hr : run t ops = some (t', outs)) : rootCountNoUpdate t' = seenAfter t (rootCountNoUpdate t) ops :=
+  HTreeImplLemmas.rootCount_run t t' ops outs inv ok hr
+
+end Impl
 
 /-! non-vacuity: overwrite, delete-then-reset and reordering give the same summary -/
 def e1 : Ent := { khash := 0x1234567890abcdef, ver := 2, vhash := 777 }
